@@ -1,8 +1,16 @@
 package main
 
 import (
+	"bufio"
 	"encoding/json"
+	"fmt"
 	"os"
+	"os/exec"
+	"path/filepath"
+	"sort"
+	"strings"
+	"sync"
+	"time"
 )
 
 // readOverlay reads {"<absolute path in repo>": "<replacement file>"} and installs it as a
@@ -27,4 +35,245 @@ func (c *Ctx) readOverlay(p string) error {
 	return nil
 }
 
-func runThoroughExtras(c *Ctx, pd *propDef) {}
+// ---------------------------------------------------------------------------------------------
+// thorough tier
+//
+//  1. the property's rules run over the whole program (./embedded/... ./pkg/... ./cmd/...), so that
+//     who-may-call / who-may-write rules see every caller (done by runProp);
+//  2. rules that touch build-constrained files are re-evaluated under other GOOS/GOARCH values;
+//  3. self-test: every seeded breakage recorded under /verif/seeded that this property's check is
+//     meant to detect is applied IN MEMORY (go/packages overlay; /repo is not touched), the check is
+//     re-run in a separate process and must report a violation. A seeded patch that no longer applies
+//     to the current tree is reported as skipped. A fixture that is not detected fails the thorough
+//     check as "undecided" (the checker lost the ability to see that breakage).
+
+type seedIndexEntry struct {
+	Breaks     string   `json:"breaks"`
+	DetectedBy []string `json:"detected_by"`
+}
+
+func runThoroughExtras(c *Ctx, pd *propDef) {
+	variantsFor := map[string]bool{"C03": true, "C17": true}
+	if variantsFor[c.Prop] {
+		c.buildVariants()
+	}
+	c.fixtureSelfTest()
+}
+
+// buildVariants re-evaluates the platform-dependent durability rules under other targets.
+func (c *Ctx) buildVariants() {
+	type variant struct{ goos, goarch string }
+	for _, v := range []variant{{"darwin", "amd64"}, {"windows", "amd64"}, {"freebsd", "amd64"}, {"linux", "386"}, {"linux", "arm64"}} {
+		name := v.goos + "/" + v.goarch
+		sub := &Ctx{Prop: c.Prop, Tier: c.Tier, Repo: c.Repo, Verif: c.Verif, seen: map[string]*Obl{}, Analysed: map[string]int{}, start: time.Now(),
+			Env: []string{"GOOS=" + v.goos, "GOARCH=" + v.goarch, "CGO_ENABLED=0"}}
+		if err := sub.load("./embedded/appendable/..."); err != nil {
+			c.undecided("variant/load", name, err.Error())
+			continue
+		}
+		c.variants = append(c.variants, name)
+		r := "C03.5/singleapp-sync"
+		if c.Prop == "C17" {
+			r = "C17.2/singleapp-sync"
+		}
+		if f := sub.mustFn(r, "embedded/appendable/fileutils.Fdatasync"); f != nil {
+			sub.ruleMustPass(r, f, nil, "fdatasync", callTo("embedded/appendable/fileutils.fdatasync"), nil, false)
+		}
+		if f := sub.mustFn(r, "embedded/appendable/fileutils.fdatasync"); f != nil {
+			sub.ruleMustPass(r, f, nil, "fsync syscall", callTo("os.(*File).Sync", "syscall.Fdatasync", "golang.org/x/sys/unix.Fdatasync", "syscall.Fsync", "golang.org/x/sys/unix.Fsync", "syscall.Syscall", "golang.org/x/sys/unix.Fcntl", "syscall.FlushFileBuffers"), nil, false)
+		}
+		if f := sub.mustFn(r, aofT+"sync"); f != nil {
+			fsync := callTo("os.(*File).Sync", "embedded/appendable/fileutils.Fdatasync")
+			sub.ruleOrder(r, f, "flush", callTo(aofT+"flush"), "fsync", fsync, nil, 2)
+			sub.ruleMustPass(r, f, nil, "fsync", fsync, nil, false)
+		}
+		for _, o := range sub.Obls {
+			c.add(o.Rule, o.Key[len(o.Rule)+1:]+"@"+name, o.Pos, o.Status, o.Detail, o.Nontrivial)
+		}
+	}
+}
+
+type fixtureResult struct {
+	ID       string   `json:"id"`
+	Status   string   `json:"status"` // detected | missed | skipped
+	Fired    []string `json:"fired,omitempty"`
+	Note     string   `json:"note,omitempty"`
+	Duration float64  `json:"wall_s"`
+}
+
+func (c *Ctx) fixtureSelfTest() {
+	idxPath := filepath.Join(c.Verif, "seeded", "index.json")
+	b, err := os.ReadFile(idxPath)
+	if err != nil {
+		c.Notes = append(c.Notes, "no seeded/index.json: fixture self-test skipped")
+		return
+	}
+	idx := map[string]seedIndexEntry{}
+	if err := json.Unmarshal(b, &idx); err != nil {
+		c.undecided("fixtures", "index.json", err.Error())
+		return
+	}
+	var ids []string
+	for id, e := range idx {
+		for _, p := range e.DetectedBy {
+			if p == c.Prop {
+				ids = append(ids, id)
+			}
+		}
+	}
+	sort.Strings(ids)
+	if len(ids) == 0 {
+		return
+	}
+	self, _ := os.Executable()
+	results := make([]fixtureResult, len(ids))
+	var wg sync.WaitGroup
+	sem := make(chan struct{}, 6)
+	for i, id := range ids {
+		wg.Add(1)
+		go func(i int, id string) {
+			defer wg.Done()
+			sem <- struct{}{}
+			defer func() { <-sem }()
+			results[i] = c.runFixture(self, id)
+		}(i, id)
+	}
+	wg.Wait()
+	nd, nm, ns := 0, 0, 0
+	for _, r := range results {
+		switch r.Status {
+		case "detected":
+			nd++
+			c.ok("selftest/fixture", r.ID, "", "seeded breakage detected: "+strings.Join(r.Fired, "; "))
+		case "skipped":
+			ns++
+			c.Notes = append(c.Notes, "fixture "+r.ID+" skipped: "+r.Note)
+		default:
+			nm++
+			c.undecided("selftest/fixture", r.ID, "the seeded breakage recorded under /verif/seeded/"+r.ID+" is no longer detected by this check: "+r.Note)
+		}
+	}
+	c.Analysed["fixtures_detected"] = nd
+	c.Analysed["fixtures_missed"] = nm
+	c.Analysed["fixtures_skipped"] = ns
+	c.fixtures = results
+}
+
+// runFixture applies one seeded patch to copies of the touched files and runs the check on the overlay.
+func (c *Ctx) runFixture(self, id string) fixtureResult {
+	t0 := time.Now()
+	res := fixtureResult{ID: id}
+	patch := filepath.Join(c.Verif, "seeded", id, "patch.diff")
+	files, err := patchedFiles(patch)
+	if err != nil || len(files) == 0 {
+		res.Status, res.Note = "skipped", fmt.Sprint("cannot read patch: ", err)
+		return res
+	}
+	tmp, err := os.MkdirTemp(filepath.Join(c.Verif, "out"), "fx-"+id+"-")
+	if err != nil {
+		os.MkdirAll(filepath.Join(c.Verif, "out"), 0o755)
+		tmp, err = os.MkdirTemp(filepath.Join(c.Verif, "out"), "fx-"+id+"-")
+		if err != nil {
+			res.Status, res.Note = "skipped", err.Error()
+			return res
+		}
+	}
+	defer os.RemoveAll(tmp)
+	ov := map[string]string{}
+	for _, f := range files {
+		src := filepath.Join(c.Repo, f)
+		dst := filepath.Join(tmp, f)
+		os.MkdirAll(filepath.Dir(dst), 0o755)
+		bb, err := os.ReadFile(src)
+		if err != nil {
+			res.Status, res.Note = "skipped", "file of the patch is missing in the tree: "+f
+			return res
+		}
+		os.WriteFile(dst, bb, 0o644)
+		ov[src] = dst
+	}
+	cmd := exec.Command("git", "apply", "--whitespace=nowarn", patch)
+	cmd.Dir = tmp
+	// tmp lives inside /verif's own git work tree: without the ceiling git would treat the patch
+	// paths as outside the current sub-directory and silently skip them
+	cmd.Env = append(os.Environ(), "GIT_CEILING_DIRECTORIES="+filepath.Dir(tmp))
+	if out, err := cmd.CombinedOutput(); err != nil {
+		res.Status, res.Note = "skipped", "patch does not apply to the current tree: "+strings.TrimSpace(string(out))
+		return res
+	}
+	changed := false
+	for src, dst := range ov {
+		a, _ := os.ReadFile(src)
+		b, _ := os.ReadFile(dst)
+		if string(a) != string(b) {
+			changed = true
+		}
+	}
+	if !changed {
+		res.Status, res.Note = "skipped", "patch applied without changing any file"
+		return res
+	}
+	ovPath := filepath.Join(tmp, "overlay.json")
+	ob, _ := json.Marshal(ov)
+	os.WriteFile(ovPath, ob, 0o644)
+	run := exec.Command(self, "-property", c.Prop, "-tier", "quick", "-overlay", ovPath, "-no-evidence", "-repo", c.Repo, "-verif", c.Verif)
+	out, _ := run.CombinedOutput()
+	sc := bufio.NewScanner(strings.NewReader(string(out)))
+	sc.Buffer(make([]byte, 1<<20), 1<<24)
+	for sc.Scan() {
+		line := sc.Text()
+		if strings.HasPrefix(line, "FIRED ") {
+			parts := strings.SplitN(strings.TrimPrefix(line, "FIRED "), " | ", 2)
+			// ignore listed known findings: they fire on the unchanged tree too
+			if c.isKnown(parts[0]) {
+				continue
+			}
+			res.Fired = append(res.Fired, parts[0])
+		}
+	}
+	res.Duration = time.Since(t0).Seconds()
+	if len(res.Fired) > 0 {
+		res.Status = "detected"
+	} else {
+		res.Status = "missed"
+		tail := string(out)
+		if len(tail) > 300 {
+			tail = tail[len(tail)-300:]
+		}
+		res.Note = "check output: " + tail
+	}
+	return res
+}
+
+func (c *Ctx) isKnown(key string) bool {
+	k, err := c.loadKnown()
+	if err != nil {
+		return false
+	}
+	for _, e := range k.Known {
+		if e.Property == c.Prop && e.Key == key {
+			return true
+		}
+	}
+	return false
+}
+
+// patchedFiles lists the repository-relative paths a unified diff touches.
+func patchedFiles(patch string) ([]string, error) {
+	b, err := os.ReadFile(patch)
+	if err != nil {
+		return nil, err
+	}
+	seen := map[string]bool{}
+	var out []string
+	for _, line := range strings.Split(string(b), "\n") {
+		if strings.HasPrefix(line, "+++ b/") {
+			f := strings.TrimPrefix(line, "+++ b/")
+			if !seen[f] {
+				seen[f] = true
+				out = append(out, f)
+			}
+		}
+	}
+	return out, nil
+}
